@@ -109,8 +109,12 @@ def segseg_stream(ctx, n):
         desc = f"segment-segment {a}-{b} x {c}-{d}"
         ctx.case(desc, nontrivial=(x is not None))
         ctx.count("segseg:" + kind + (":hit" if exp else ":miss"))
-        S1 = g.Segment(g.Point(*map(float, a)), g.Point(*map(float, b)))
-        S2 = g.Segment(g.Point(*map(float, c)), g.Point(*map(float, d)))
+        def hp(v):
+            # any homogeneous representative of the endpoint (negative ones too)
+            w = rng.choice([1, 1, 2, -1, -2])
+            return g.Point(np.array([float(t) * w for t in v] + [float(w)]))
+        S1 = g.Segment(hp(a), hp(b))
+        S2 = g.Segment(hp(c), hp(d))
         if (a, b) == (c, d) or (a, b) == (d, c):
             continue
         compare_sets(ctx, f"C18:segseg:2d:{kind}", desc, exp, call_impl(lambda: S1.intersect(S2)))
